@@ -293,7 +293,8 @@ def _store_array(
     else:
         # treat a region as an offset within the target store
         shape = target.shape
-        chunks = target.chunks
+        # tasks write whole storage units: shards if the target is sharded, chunks otherwise
+        chunks = getattr(target, "shards", None) or target.chunks
         for i, (sl, cs) in enumerate(zip(region, chunks)):
             if (sl.start is not None and sl.start % cs != 0) or (
                 sl.stop is not None and sl.stop % cs != 0 and sl.stop != shape[i]
